@@ -71,6 +71,8 @@ type Config struct {
 	MailGoroutine     bool     // leave MailNoGoroutine=false (schedule engine only)
 	SMTPMailer        bool     // use defaults.SMTPMailer (through the vsmtp shim)
 	AppRecoverEndHook bool     // the application registers, ahead of the modules, an After(EventRecoverEnd) handler that returns handled=true
+	PreloadUser       bool     // an application middleware in front of everything loads the current user into the request context (a layout-data injector)
+	CustomFailures    bool     // the JSON renderer is configured with a Failures slice that has spare capacity
 	EmptyLocalizer    bool     // a Localizer that has no translation for any of the library's keys (returns "", as the interface documents)
 	PerClientData     bool     // the application injects per-client template data into every request context (CTXKeyData)
 	LogMailer         bool     // use defaults.LogMailer writing into the world's mail stream (every Write is a scheduling point)
@@ -501,6 +503,10 @@ func NewStack(cfg Config) (*Stack, error) {
 
 	logger := defaults.NewLogger(logWriter{s})
 	ab.Config.Core.ViewRenderer = renderer{s: s}
+	if cfg.CustomFailures {
+		// an integrator's own failure key, in a slice that has room to grow (append must not write into it)
+		ab.Config.Core.ViewRenderer = renderer{s: s, inner: defaults.JSONRenderer{Failures: append(make([]string, 0, 8), "custom_failure", authboss.DataErr, authboss.DataValidation)}}
+	}
 	ab.Config.Core.MailRenderer = renderer{s: s, mail: true}
 	ab.Config.Core.Router = defaults.NewRouter()
 	if cfg.Err500 {
@@ -634,6 +640,12 @@ func NewStack(cfg Config) (*Stack, error) {
 		ctx := context.WithValue(r.Context(), xoauth2.HTTPClient, &http.Client{Transport: providerRT{}})
 		if cfg.SharedLayout && s.W.Layout != nil {
 			ctx = context.WithValue(ctx, authboss.CTXKeyData, authboss.HTMLData(s.W.Layout))
+		}
+		if cfg.PreloadUser {
+			rr := r.WithContext(ctx)
+			if _, err := ab.LoadCurrentUser(&rr); err == nil {
+				ctx = rr.Context()
+			}
 		}
 		if cfg.PerClientData {
 			// a data-injecting middleware as the README describes: values that belong to this client only,
